@@ -10,7 +10,9 @@ for p in C01 C02 C03 C04 C05 C06 C07 C08 C09 C10 C11 C12 C13 C14 C15 C16 C17 C18
 	tail -n1 /tmp/rg-$p.txt | grep -q "violations=0 broken=0" || { echo "FAIL $p: $(tail -n1 /tmp/rg-$p.txt)"; rc=1; }
 done; rm -f /tmp/rg-C*.txt
 echo "== witnesses (must fire)"
-python3 tools/witness.py $(ls witnesses/R*/*.diff) 2>&1 | grep -v "^fired" | tee /tmp/rg-w.txt; grep -q " 0 skipped, 0 missed" /tmp/rg-w.txt || rc=1
+# witness.py runs its files one after the other: hand it batches of six, fourteen at a time (3 min instead of 45)
+ls witnesses/R*/*.diff | xargs -P 14 -n 6 python3 tools/witness.py 2>&1 | grep -v "^fired" | tee /tmp/rg-w.txt
+grep "^witnesses:" /tmp/rg-w.txt | grep -qv " 0 skipped, 0 missed" && rc=1; grep -q "^witnesses:" /tmp/rg-w.txt || rc=1
 echo "== neutral edits (must be silent on every property)"
 python3 tools/neutralmatrix.py -j 14 witnesses/neutral/*.diff 2>&1 | grep -v "^silent" | tee /tmp/rg-n.txt; grep -q "alarms/other 0" /tmp/rg-n.txt || rc=1
 echo "== seeded changes"
